@@ -18,7 +18,8 @@
 (*         ret   objects identified in the success response   [kind, o, ps, own]               *)
 (*         diff  semantic store difference after - before      [op, kind, o, ps, own]           *)
 (*               (mappings, connection codes, HTTP domains, traffic counters, client configs)   *)
-(*         deliv packets that arrived on OTHER connections     [to (client), ty, snd]           *)
+(*         deliv packets that arrived on OTHER connections     [to (client), ty, snd, resp]     *)
+(*               (resp: it is the response to THIS command)                                      *)
 (*         sum / ref  canonical summary of (out, ret, diff, deliv) of this run and of a twin    *)
 (*               run (fresh server, same steps) whose packets carry no identity fields          *)
 (* Judge state: ident = for each connection the identity PROVEN on it (last handshake that was  *)
@@ -80,7 +81,9 @@ Judge(e) ==
                V("ClaimsMatter", D("env=" \o e.claims \o ":body=" \o e.bf)))
       vR == If(need /\ row.cls = "obj" /\ row.party = "listen" /\ \E p \in dels : p.to # e.objt,
                V("Redirected", D("body=" \o e.bf)))
-  IN vU \cup vP \cup vC \cup vR
+      \* ---- the response to a command goes to the connection it arrived on, never to another client's
+      vM == If(\E p \in dels : "resp" \in DOMAIN p /\ p.resp /\ (X = None \/ p.to # X), V("Misrouted", D("response")))
+  IN vU \cup vP \cup vC \cup vR \cup vM
 
 TrCmd == /\ Is("Cmd")
          /\ viol' = viol \cup Judge(Ev)
